@@ -43,6 +43,35 @@ VM_RECEIVERS = ("vm.", "vm[", "stack.", "stack[")
 
 
 
+TXID_CALLS = ("hash", "id", "w_hash", "w_id")
+
+
+def txid_keyed(ctx, g):
+    """a table kept between calls by a validation function and looked up under the transaction's ID (and nothing else of its
+    state): -> the key text, or None.  The id covers neither the unspents (the coins being spent, their scripts and values) nor --
+    for hash() / id() -- the witnesses, and those are exactly what C06 says a verdict must follow"""
+    node = getattr(g, "original", g).node           # as written: the call of hash() / id() by name, not its inlined body
+    defs = df.single_defs(node)
+    keys = []
+    for n in ast.walk(node):
+        if isinstance(n, ast.Call) and isinstance(n.func, ast.Attribute) and n.func.attr in ("setdefault", "get", "pop") and n.args and "__dict__" not in norm(n.func.value).split(".")[-1:]:
+            keys.append(n.args[0])
+        elif isinstance(n, ast.Subscript) and not isinstance(n.slice, ast.Slice):
+            keys.append(n.slice)
+        elif isinstance(n, ast.Compare) and len(n.ops) == 1 and isinstance(n.ops[0], (ast.In, ast.NotIn)):
+            keys.append(n.left)
+    for k in keys:
+        k = df.expand(k, defs)
+        ids = [c for c in ast.walk(k) if isinstance(c, ast.Call) and isinstance(c.func, ast.Attribute) and c.func.attr in TXID_CALLS and not c.args and norm(c.func.value) in ("self", "self.tx", "tx")]
+        if not ids:
+            continue
+        other = [a for a in ast.walk(k) if isinstance(a, ast.Attribute) and norm(a).split(".")[0] in ("self", "tx") and not any(a is c.func or a is c.func.value for c in ids)
+                 and not (isinstance(a.value, ast.Name) and norm(a) == "self.tx")]
+        if not other:
+            return norm(k)
+    return None
+
+
 def memo_policy(ctx, g, wr, key):
     """a write that keeps something the reviewed tree did not keep -- an attribute no reviewed function of the module writes, a
     module-level table added since the review -- is a memo: judged by whether it can go stale (sym.stale_memo), not by its
@@ -60,6 +89,11 @@ def memo_policy(ctx, g, wr, key):
                 stale = sym.stale_memo(sm_, {m_.group(1)})
             except Exception:
                 stale = None
+            tk_ = txid_keyed(ctx, g) if not stale else None
+            if tk_ is not None:
+                ctx.bad(key, ctx.where(g, wr.node), "%s keeps `%s` between calls and looks it up under `%s`: of the transaction's state the key holds its ID only, which covers neither the unspents nor, for hash() / id(), the witnesses"
+                        % (g.qualname.split(".", 3)[-1], m_.group(1), tk_[:70]), sample={"function": g.qualname, "key": tk_[:70]})
+                return True
             if not stale:
                 ctx.undecided(key, ctx.where(g, wr.node), "%s keeps `%s` between calls (added since the review); it is handed out again only under a test that reads the object's state, or this rule cannot read when: no verdict on whether it can go stale"
                               % (g.qualname.split(".", 3)[-1], m_.group(1)))
@@ -77,6 +111,12 @@ def memo_policy(ctx, g, wr, key):
                     return False
             except Exception:
                 pass
+        tk_ = txid_keyed(ctx, g)
+        if tk_ is not None:
+            ctx.bad(key, ctx.where(g, wr.node), "%s keeps a table between calls that it looks up under `%s`: of the transaction's state the key holds its ID only, which covers neither the unspents "
+                    "(the coins being spent: their scripts and values) nor, for hash() / id(), the witnesses -- what was remembered for the transaction as it was is served after those changed" % (g.qualname.split(".", 3)[-1], tk_[:70]),
+                    sample={"function": g.qualname, "key": tk_[:70]})
+            return True
         ctx.undecided(key, ctx.where(g, wr.node), "%s keeps a table it creates on demand in the instance dictionary (%s), added since the review: a memo; whether it can go stale is not read here" % (g.qualname.split(".", 3)[-1], (wr.why or "")[:60]))
         return True
     m2_ = _re.match(r"^([A-Za-z_]\w*)[\[.]", recv)
